@@ -542,6 +542,13 @@ func (p *c20) judge(rep *c20Rep, api string, src []byte, a c20AST, ref, out stri
 	}
 	want := oracle.Parse(ref, false)
 	got := oracle.Parse(out, false)
+	if c20SwallowedMarkup(want) {
+		// raw HTML opened a raw-text / RCDATA element (<title ...>, <textarea>,
+		// <xmp> ...): the rest of the document is its text, serialisation white
+		// space included - not a structure the statement speaks about
+		o.Cell("not-judged/raw-html-opens-a-raw-text-element")
+		return
+	}
 	cm := &c20Cmp{noRaw: !a.hasRaw}
 	cm.root(want, got)
 	cm.inlineWhitespace(ref, out)
@@ -689,4 +696,19 @@ func fstestBytes(files map[string][]byte) fs.FS {
 		m[k] = string(v)
 	}
 	return memFS(m)
+}
+
+var c20RawTextEls = map[string]bool{"title": true, "textarea": true, "xmp": true, "plaintext": true, "iframe": true, "noembed": true, "noframes": true, "noscript": true, "script": true, "style": true}
+
+// c20SwallowedMarkup: some raw-text / RCDATA element of the reference DOM holds markup as text.
+func c20SwallowedMarkup(n *oracle.N) bool {
+	if n.Kind == "el" && c20RawTextEls[n.Name] && strings.Contains(n.InnerText(), "</") {
+		return true
+	}
+	for _, k := range n.Kids {
+		if c20SwallowedMarkup(k) {
+			return true
+		}
+	}
+	return false
 }
